@@ -12,11 +12,19 @@ pub fn check(v: &View, vd: &mut Verdict) {
         let dead = v.dead_from(a);
         let mut joins: Vec<&OpRec> = v
             .client_ops()
-            .filter(|o| o.actor == Some(a) && matches!(o.what, OpWhat::Join | OpWhat::Consume | OpWhat::ConsumeSync))
+            .filter(|o| o.actor == Some(a) && matches!(o.what, OpWhat::Join | OpWhat::JoinStash | OpWhat::Consume | OpWhat::ConsumeSync))
             .collect();
         joins.sort_by_key(|o| o.begin);
         let mut handed_out = false;
         for (k, o) in joins.iter().enumerate() {
+            if o.what == OpWhat::JoinStash {
+                // a join future that was polled once and is kept alive owns the task handle from now on
+                if matches!(o.res, Some(OpRes::Bool(false))) {
+                    handed_out = true;
+                    vd.class("stalled_join_future");
+                }
+                continue;
+            }
             let Some(end) = o.end else {
                 if dead < v.phase(Phase::Teardown) {
                     vd.fail(format!("C17/join_hangs/{:?}", o.what), format!("actor {a}: {:?} (client {} op {}) never resolved although the actor ended at {dead}", o.what, o.client, o.op));
@@ -56,7 +64,7 @@ pub fn check(v: &View, vd: &mut Verdict) {
                     }
                 }
                 Some(OpRes::Joined(None)) => {
-                    if end < dead {
+                    if end < dead && !handed_out {
                         vd.fail("C17/none_before_end", format!("actor {a}: {:?} returned None at {end} while the actor was still running (ended {dead:?})", o.what));
                     }
                     // the first join of a gracefully terminated actor must hand out the value
